@@ -136,6 +136,90 @@ pub fn tree_perm(s: &mut Sink, n: usize, nl: usize, hash: bool, final_hash_updat
     }
 }
 
+/// staircases: keys whose levels form long monotone chains (up to 2*width levels nested through lt pointers
+/// or high pages), inserted in ascending / descending / shuffled order, plus a few extra keys
+pub fn tree_stair(s: &mut Sink, count: u64, seed: u64) {
+    let mut r = Rng::new(seed ^ 0x3a3a);
+    for i in 0..count {
+        let mut cr = Rng::new(r.next());
+        if !s.mine() {
+            s.skip();
+            continue;
+        }
+        let w = *cr.pick(&[8usize, 16, 16, 32]);
+        let maxl = (2 * w as u32).min(40);
+        let nl = 2 + cr.below(maxl as u64 - 1) as u32; // number of stair steps
+        let up = cr.chance(1, 2); // levels rise with the key (lt chain) or fall (high-page chain)
+        let extra = cr.below(4) as usize;
+        let n = nl as usize + extra;
+        let mut levels: Vec<u32> = (0..nl).map(|j| if up { j } else { nl - 1 - j }).collect();
+        for _ in 0..extra {
+            let pos = cr.below(levels.len() as u64 + 1) as usize;
+            levels.insert(pos, cr.below(nl as u64) as u32);
+        }
+        let keys: Vec<String> = levels
+            .iter()
+            .enumerate()
+            .map(|(j, l)| format!("{}:{}", hex(&[(j / 256) as u8, (j % 256) as u8]), hex(&digest_for_level(*l, 16, w))))
+            .collect();
+        let mut order: Vec<usize> = (0..n).collect();
+        match i % 3 {
+            0 => {}
+            1 => order.reverse(),
+            _ => {
+                for a in (1..n).rev() {
+                    let b = cr.below(a as u64 + 1) as usize;
+                    order.swap(a, b);
+                }
+            }
+        }
+        let mut ops: Vec<String> = vec![];
+        for (j, k) in order.iter().enumerate() {
+            ops.push(format!("u{}:01", k));
+            if cr.chance(1, 6) || j + 1 == n {
+                ops.push("h".into());
+            }
+        }
+        ops.push(format!("u{}:02", order[0]));
+        s.emit(&format!("T 16 {} {} {}", w, keys.join(","), ops.join(",")));
+    }
+}
+/// wide flat pages: hundreds of keys on one level (pages of several hundred nodes), with re-upserts and
+/// overwrites of keys that are already present
+pub fn tree_flat(s: &mut Sink, count: u64, seed: u64) {
+    let mut r = Rng::new(seed ^ 0x4b4b);
+    for _ in 0..count {
+        let mut cr = Rng::new(r.next());
+        if !s.mine() {
+            s.skip();
+            continue;
+        }
+        let n = 200 + cr.below(500) as usize;
+        let top = cr.below(3) as u32; // a handful of higher-level keys
+        let levels: Vec<u32> = (0..n).map(|_| if cr.chance(1, 150) { 1 + cr.below(top as u64 + 1) as u32 } else { 0 }).collect();
+        let keys: Vec<String> = levels
+            .iter()
+            .enumerate()
+            .map(|(j, l)| format!("{}:{}", hex(&[(j / 256) as u8, (j % 256) as u8]), hex(&digest_for_level(*l, 16, 16))))
+            .collect();
+        let mut order: Vec<usize> = (0..n).collect();
+        for a in (1..n).rev() {
+            let b = cr.below(a as u64 + 1) as usize;
+            order.swap(a, b);
+        }
+        let mut ops: Vec<String> = order.iter().map(|k| format!("u{}:01", k)).collect();
+        ops.push("h".into());
+        for _ in 0..(3 + cr.below(12)) {
+            let k = cr.below(n as u64);
+            ops.push(format!("u{}:{}", k, VALS[cr.below(3) as usize]));
+            if cr.chance(1, 4) {
+                ops.push("h".into());
+            }
+        }
+        s.emit(&format!("Tf 16 16 {} {}", keys.join(","), ops.join(",")));
+    }
+}
+
 fn rand_bytes(r: &mut Rng, n: usize) -> Vec<u8> {
     (0..n).map(|_| r.below(256) as u8).collect()
 }
@@ -288,6 +372,55 @@ pub fn pair_exh(s: &mut Sink, n: usize, nl: usize) {
         }
     }
 }
+/// twins: two adjacent keys whose bytes differ only by trailing zero bytes (X and X ++ 00..), on the same
+/// level; replica A holds one twin, replica B the other, with the same value; everything else is shared
+pub fn pair_twin(s: &mut Sink, count: u64, seed: u64) {
+    let mut r = Rng::new(seed ^ 0x6c6c);
+    for _ in 0..count {
+        let mut cr = Rng::new(r.next());
+        if !s.mine() {
+            s.skip();
+            continue;
+        }
+        let n = 2 + cr.below(7) as usize;
+        let mut set = std::collections::BTreeSet::new();
+        while set.len() < n {
+            let l = 1 + cr.below(12) as usize;
+            let mut b = rand_bytes(&mut cr, l);
+            if *b.last().unwrap() == 0 {
+                *b.last_mut().unwrap() = 1;
+            }
+            set.insert(b);
+        }
+        let mut keys: Vec<Vec<u8>> = set.into_iter().collect();
+        let j = cr.below(keys.len() as u64) as usize;
+        let mut twin = keys[j].clone();
+        twin.extend(std::iter::repeat(0u8).take(1 + cr.below(7) as usize));
+        keys.insert(j + 1, twin);
+        let base = *cr.pick(&[16u32, 2, 255]);
+        let digs: Vec<Vec<u8>> = {
+            let mut d: Vec<Vec<u8>> = keys.iter().map(|_| rand_digest(&mut cr, base, 16, 30)).collect();
+            d[j + 1] = d[j].clone();
+            d
+        };
+        let ks: Vec<String> = keys.iter().zip(digs.iter()).map(|(k, d)| format!("{}:{}", hex(k), hex(d))).collect();
+        let mut a: Vec<String> = vec![];
+        let mut b: Vec<String> = vec![];
+        for i in 0..keys.len() {
+            if i == j {
+                a.push(format!("u{}:07", i));
+            } else if i == j + 1 {
+                b.push(format!("u{}:07", i));
+            } else if cr.chance(3, 4) {
+                let v = VALS[cr.below(3) as usize];
+                a.push(format!("u{}:{}", i, v));
+                b.push(format!("u{}:{}", i, v));
+            }
+        }
+        s.emit(&format!("P {} 16 {} {} {}", base, ks.join(","), a.join(","), b.join(",")));
+    }
+}
+
 pub fn pair_rand(s: &mut Sink, count: u64, seed: u64, maxkeys: usize) {
     let mut r = Rng::new(seed ^ 0x5151);
     for i in 0..count {
@@ -297,11 +430,13 @@ pub fn pair_rand(s: &mut Sink, count: u64, seed: u64, maxkeys: usize) {
             continue;
         }
         let nk = 1 + cr.below(if i % 10 == 0 { maxkeys as u64 } else { 10.min(maxkeys as u64) }) as usize;
-        // sync oracles read values as LE64: width 16 keeps them representable
+        // the sync-rounds oracle reads values as LE64 and runs on width-16 cases only: keep half of them at 16
         let t = {
             let mut tt = rand_keys(&mut cr, nk);
-            while tt.w != 16 {
-                tt = rand_keys(&mut cr, nk);
+            if cr.chance(1, 2) {
+                while tt.w != 16 {
+                    tt = rand_keys(&mut cr, nk);
+                }
             }
             tt
         };
@@ -355,7 +490,7 @@ pub fn pair_rand(s: &mut Sink, count: u64, seed: u64, maxkeys: usize) {
         }
         let a = side(&mut cr, alo, ahi, &shared);
         let b = side(&mut cr, blo, bhi, &shared);
-        s.emit(&format!("P {} 16 {} {} {}", t.base, t.keys, a, b));
+        s.emit(&format!("P {} {} {} {} {}", t.base, t.w, t.keys, a, b));
     }
 }
 
